@@ -1109,23 +1109,27 @@ def covered : List (String × String × Int) :=
    ("string", "len", 1), ("string", "string", 1), ("string", "trim", 1), ("string", "toLower", 1),
    ("string", "toUpper", 1), ("string", "contains", 2), ("string", "indexOf", 2), ("string", "split", 2),
    ("string", "cut", 3), ("string", "replace", 3), ("string", "toInt", 1), ("string", "toFloat", 1),
-   ("int", "string", 1), ("bool", "string", 1), ("closure", "args", 1), ("closure", "invoke", 2)]
+   ("int", "string", 1), ("bool", "string", 1), ("closure", "args", 1), ("closure", "invoke", 2),
+   -- specified in `Spec/LibSpecExt.lean` (dispatch: `methodX`)
+   ("string", "behind", 2), ("string", "behindList", 2), ("list", "multiUse", 2),
+   ("list", "linearReg", 3), ("list", "createInterpolation", 3), ("float", "string", 1)]
 
-/-- methods outside the spec (exercised only for "returns ok or err, never crashes") -/
+/-- methods outside the spec (exercised only for "returns ok or err, never crashes"); the binning
+methods have a model of their own (`P2.Binning`, property C20) -/
 def unmodelledMethods : List (String × String) :=
-  [("list", "multiUse"), ("list", "createInterpolation"), ("list", "linearReg"),
-   ("list", "binning"), ("list", "binning2d"), ("list", "collectBinning"),
-   ("string", "behind"), ("string", "behindList"), ("float", "string")]
+  [("list", "binning"), ("list", "binning2d"), ("list", "collectBinning")]
 
 /-- covered static functions: (name, `Args`; −1 variadic) -/
 def coveredStatics : List (String × Int) :=
   [("throw", 1), ("string", 1), ("isFloat", 1), ("isInt", 1), ("float", 1), ("int", 1), ("abs", 1),
    ("sign", 1), ("sqr", 1), ("round", 1), ("binAnd", 2), ("binOr", 2), ("numbers", 1), ("goto", 1),
-   ("sqrt", 1), ("floor", 1), ("ceil", 1), ("trunc", 1), ("min", -1), ("max", -1)]
+   ("sqrt", 1), ("floor", 1), ("ceil", 1), ("trunc", 1), ("min", -1), ("max", -1),
+   -- specified in `Spec/LibSpecExt.lean` (dispatch: `staticFnX`)
+   ("bisection", -1), ("createLowPass", 4)]
 
 def unmodelledStatics : List String :=
   ["sin", "cos", "tan", "asin", "acos", "atan", "exp", "ln", "log10", "sprintf", "random",
-   "randomConst", "bisection", "createLowPass"]
+   "randomConst"]
 
 def isCovered (ty name : String) : Bool := covered.any (fun e => e.1 == ty && e.2.1 == name)
 def isCoveredStatic (name : String) : Bool := coveredStatics.any (fun e => e.1 == name)
